@@ -339,7 +339,8 @@ impl std::str::FromStr for Relation {
             let mut version_string = String::new();
             while let Some((kind, s)) = tokens.peek() {
                 match kind {
-                    R_PARENS => break,
+                    // whitespace may precede the ')' (Policy 7.1)
+                    R_PARENS | WHITESPACE => break,
                     IDENT | COLON => version_string.push_str(s),
                     n => return Err(format!("Unexpected token: {:?}", n)),
                 }
